@@ -369,6 +369,34 @@ func envelopes(c *core.Ctx, rng *rand.Rand) []interface{} {
 		outcome{"silent", "error", func(r res.CallRequest) {}, res.CodeInternalError},
 		outcome{"bad", "error", func(r res.CallRequest) { r.OK(make(chan int)) }, res.CodeInternalError},
 	)
+	// error outcomes that must arrive verbatim: code, message and data as the handler supplied them
+	verbatim := []*res.Error{
+		{Code: "system.invalidParams", Message: "Invalid parameters", Data: map[string]interface{}{"field": "name", "n": 2.0}},
+		{Code: "system.notFound", Message: "Not found", Data: []interface{}{"a", 1.0}},
+		{Code: "system.invalidQuery", Message: "Invalid query", Data: "which part"},
+		{Code: "system.methodNotFound", Message: "Method not found", Data: true},
+		{Code: "system.accessDenied", Message: "Access denied", Data: map[string]interface{}{}},
+		{Code: "system.invalidParams", Message: "another message"},
+		{Code: "custom.withdata", Message: "m", Data: map[string]interface{}{"k": []interface{}{1.0, "x"}}},
+		{Code: "system.internalError", Message: "Internal error", Data: 7.0},
+	}
+	for i, e := range verbatim {
+		e := e
+		outs = append(outs,
+			outcome{fmt.Sprintf("verr%d", i), "verbatim", func(r res.CallRequest) { r.Error(e) }, e},
+			outcome{fmt.Sprintf("vpanic%d", i), "verbatim", func(r res.CallRequest) { panic(e) }, e})
+	}
+	sameError := func(got *res.Error, want interface{}) bool {
+		w := want.(*res.Error)
+		if got == nil || got.Code != w.Code || got.Message != w.Message {
+			return false
+		}
+		var gd interface{}
+		if b, err := json.Marshal(got.Data); err != nil || json.Unmarshal(b, &gd) != nil {
+			return false
+		}
+		return reflect.DeepEqual(gd, w.Data)
+	}
 	s := res.NewService("test")
 	s.SetLogger(nil)
 	s.SetWorkerCount(1)
@@ -451,8 +479,14 @@ func envelopes(c *core.Ctx, rng *rand.Rand) []interface{} {
 				decoded = string(hr.Resource) == o.data
 			case "error":
 				decoded = hr.Error != nil && hr.Error.Code == o.data
+			case "verbatim":
+				decoded = sameError(hr.Error, o.data)
 			}
-			recs = append(recs, rec{"op": "envelope", "classes": classes, "cls": cls, "expect": o.expect, "decoded": decoded, "dbg": "http+" + metaName + ": " + string(hm[0].Data)})
+			expect := o.expect
+			if expect == "verbatim" {
+				expect = "error"
+			}
+			recs = append(recs, rec{"op": "envelope", "classes": classes, "cls": cls, "expect": expect, "decoded": decoded, "dbg": "http+" + metaName + ": " + string(hm[0].Data)})
 		}
 		inbox := fmt.Sprintf("inbox.e%d", i)
 		conn.Deliver("call.test.e."+o.name+".m", inbox, nil)
@@ -489,8 +523,17 @@ func envelopes(c *core.Ctx, rng *rand.Rand) []interface{} {
 			decoded = string(resp.Resource) == o.data
 		case "error":
 			decoded = resp.Error != nil && resp.Error.Code == o.data
+		case "verbatim":
+			decoded = sameError(resp.Error, o.data)
 		}
-		recs = append(recs, rec{"op": "envelope", "classes": classes, "cls": cls, "expect": o.expect, "decoded": decoded, "dbg": string(ms[0].Data)})
+		expect := o.expect
+		if expect == "verbatim" {
+			expect = "error"
+		}
+		recs = append(recs, rec{"op": "envelope", "classes": classes, "cls": cls, "expect": expect, "decoded": decoded, "dbg": string(ms[0].Data)})
+		if o.expect == "verbatim" {
+			continue // no get variant for error outcomes
+		}
 		// a get response through ParseModel
 		ginbox := fmt.Sprintf("inbox.g%d", i)
 		conn.Deliver("get.test.e."+o.name, ginbox, nil)
